@@ -18,6 +18,7 @@ import (
 	"github.com/openfga/openfga/internal/verifh/core"
 	"github.com/openfga/openfga/pkg/server/commands"
 	"github.com/openfga/openfga/pkg/storage"
+	"github.com/openfga/openfga/pkg/storage/sqlite"
 )
 
 const tag = "c15"
@@ -193,6 +194,9 @@ func (w *runner) build(ctx context.Context, hist []wl.Event, pauseAt int, pause 
 			return "", nil, fmt.Errorf("step %d (%s): %w", i, w.u.EventString(e), err)
 		}
 		ts.w1 = append(ts.w1, time.Now().Round(0))
+	}
+	if pauseAt >= 0 {
+		time.Sleep(pause * 2 / 3) // lets the young half age, so that an offset just above its age is well below the old half's age
 	}
 	return st, ts, nil
 }
@@ -409,11 +413,12 @@ func (w *runner) checkState(ctx context.Context, hist []wl.Event, ref *wl.Ref, s
 
 // straddle: requests [0,split) are written, then the harness sleeps, then requests [split,n). Every change
 // timestamp of request i lies in the wall-clock bracket [w0_i, w1_i] the harness measured around the call.
-// ReadChanges is then asked with offset := floor_ms(r0 - w1_{split-1}) where r0 is read just before the call, so
-// every change of the old requests is at least `offset` old whenever the call looks at the clock. If the call
-// returned before w0_split + offset (checked afterwards with r1) every change of the new requests is younger than
-// `offset` at any instant of the call: the answer must be exactly the changes of requests < split. If the call was
-// too slow for that the case is inconclusive (counted, no verdict). No sleep-length assumption enters the oracle.
+// ReadChanges is then asked with a whole-millisecond offset X chosen from r0 (read just before the call) so that
+// r0 - w1_{split-1} >= X (every old change is at least X old whenever the call looks at the clock); X is either the
+// largest such value (tight on the old half) or the age bound of the young half plus 2 ms (tight on the young half).
+// If the call returned before w0_split + X (checked afterwards with r1) every change of the new requests is younger
+// than X at any instant of the call: the answer must be exactly the changes of requests < split. Otherwise the case
+// is inconclusive (counted, no verdict). No sleep-length assumption enters the oracle.
 func (w *runner) straddle(ctx context.Context, hist []wl.Event, ref *wl.Ref, split int, st *stats) []dev {
 	u := w.u
 	store, ts, err := w.build(ctx, hist, split, 3*time.Millisecond)
@@ -427,38 +432,45 @@ func (w *runner) straddle(ctx context.Context, hist []wl.Event, ref *wl.Ref, spl
 	}
 	var devs []dev
 	for _, t := range []string{"", "doc"} {
-		r0 := time.Now().Round(0)
-		offset := r0.Sub(ts.w1[split-1]).Truncate(time.Millisecond)
-		if offset <= 0 {
-			st.straddleInconclusive++
-			continue
-		}
-		got, _, err := w.b.DS.ReadChanges(ctx, store, storage.ReadChangesFilter{ObjectType: t, HorizonOffset: offset}, storage.ReadChangesOptions{Pagination: storage.PaginationOptions{PageSize: 50}})
-		r1 := time.Now().Round(0)
-		st.evals++
-		if !(r1.Sub(ts.w0[split]) < offset) {
-			st.straddleInconclusive++
-			continue
-		}
-		if err != nil && !errors.Is(err, storage.ErrNotFound) {
-			devs = append(devs, dev{"horizon-straddle-read-failed@memory", err.Error(), Case{Backend: w.name, History: hist, Readable: histString(u, hist), Check: "straddle"}})
-			continue
-		}
-		// expected: the first oldN changes of the full list, filtered by type
-		full, _, _ := wl.ChangesRaw(ctx, w.b.DS, store, storage.ReadChangesFilter{}, 0, false)
-		if len(full) < oldN {
-			continue // reported by the count oracle
-		}
-		want := filterType(full[:oldN], t)
-		st.counts["horizon_straddle_cases_decided"]++
-		if !eqChanges(got, want) {
-			c := Case{Backend: w.name, History: hist, Readable: histString(u, hist), Check: fmt.Sprintf("straddle split=%d type=%q offset=%v", split, t, offset),
-				Got: wl.ChangeStrings(got), Want: wl.ChangeStrings(want)}
-			sig := "horizon-withholds-old-changes@memory"
-			if len(got) > len(want) {
-				sig = "horizon-does-not-withhold-new-changes@memory"
+		for _, variant := range []string{"tight-on-old-half", "tight-on-young-half"} {
+			r0 := time.Now().Round(0)
+			var offset time.Duration
+			if variant == "tight-on-old-half" {
+				offset = r0.Sub(ts.w1[split-1]).Truncate(time.Millisecond) // largest whole-ms offset the old half certainly reaches
+			} else {
+				offset = r0.Sub(ts.w0[split]).Truncate(time.Millisecond) + 2*time.Millisecond // smallest whole-ms offset (+1 ms for the call) the young half certainly misses
 			}
-			devs = append(devs, dev{sig, fmt.Sprintf("requests before the pause are older than the offset, requests after it younger: expected exactly the %d old changes, got %d — history: %s", len(want), len(got), c.Readable), c})
+			if offset <= 0 || r0.Sub(ts.w1[split-1]) < offset {
+				st.straddleInconclusive++
+				continue
+			}
+			got, _, err := w.b.DS.ReadChanges(ctx, store, storage.ReadChangesFilter{ObjectType: t, HorizonOffset: offset}, storage.ReadChangesOptions{Pagination: storage.PaginationOptions{PageSize: 50}})
+			r1 := time.Now().Round(0)
+			st.evals++
+			if !(r1.Sub(ts.w0[split]) < offset) {
+				st.straddleInconclusive++
+				continue
+			}
+			if err != nil && !errors.Is(err, storage.ErrNotFound) {
+				devs = append(devs, dev{"horizon-straddle-read-failed@memory", err.Error(), Case{Backend: w.name, History: hist, Readable: histString(u, hist), Check: "straddle"}})
+				continue
+			}
+			// expected: the first oldN changes of the full list, filtered by type
+			full, _, _ := wl.ChangesRaw(ctx, w.b.DS, store, storage.ReadChangesFilter{}, 0, false)
+			if len(full) < oldN {
+				continue // reported by the count oracle
+			}
+			want := filterType(full[:oldN], t)
+			st.counts["horizon_straddle_cases_decided"]++
+			if !eqChanges(got, want) {
+				c := Case{Backend: w.name, History: hist, Readable: histString(u, hist), Check: fmt.Sprintf("straddle %s split=%d type=%q offset=%v", variant, split, t, offset),
+					Got: wl.ChangeStrings(got), Want: wl.ChangeStrings(want)}
+				sig := "horizon-withholds-old-changes@memory"
+				if len(got) > len(want) {
+					sig = "horizon-does-not-withhold-new-changes@memory"
+				}
+				devs = append(devs, dev{sig, fmt.Sprintf("requests before the pause are older than the offset, requests after it younger (%s): expected exactly the %d old changes, got %d — history: %s", variant, len(want), len(got), c.Readable), c})
+			}
 		}
 	}
 	return devs
@@ -467,6 +479,12 @@ func (w *runner) straddle(ctx context.Context, hist []wl.Event, ref *wl.Ref, spl
 // ---------------------------------------------------------------------------------------------------
 
 func runCase(ctx context.Context, u *wl.Universe, c Case) []dev {
+	if c.Check == "interleaved-writer" {
+		if d := interleavedWriter(ctx, u); d != nil {
+			return []dev{*d}
+		}
+		return nil
+	}
 	ref := wl.NewRef(u)
 	for _, e := range c.History {
 		if !ref.Apply(e) {
@@ -569,6 +587,47 @@ func runShard(u *wl.Universe, p *plan, c *wl.Collector) {
 	}
 }
 
+// interleavedWriter demonstrates, with sequential calls, what two concurrent Write requests do to a third one.
+// sqlite.Datastore.Write reads the clock at entry (`now`) and later draws the changelog ULIDs from oklog/ulid's
+// process-global monotonic entropy with that timestamp. That source only guarantees increasing ULIDs while consecutive
+// draws carry the same millisecond; a draw with another millisecond makes it start over with fresh random entropy.
+// Schedule (3 requests, 2 stores): A1 = write t to store A, clock read at T; B = write to store B by a request that read
+// the clock at T-1ms but reaches its ULID draw after A1; A2 = delete t from store A, clock read at T (same millisecond as
+// A1). A2's ULID is then random relative to A1's: in about half of the runs the changelog of store A lists the delete
+// before the write. The clock readings are passed through the verif re-export VerifWriteAt (Write itself calls
+// time.Now()). 40 independent trials; P(no inversion) = 2^-40.
+func interleavedWriter(ctx context.Context, u *wl.Universe) *dev {
+	b := wl.OpenSQLite(tag)
+	defer b.Close()
+	ds, ok := b.DS.(*sqlite.Datastore)
+	if !ok {
+		return nil
+	}
+	k := u.Keys[0]
+	wr := []*openfgav1.TupleKey{{Object: k.Obj, Relation: k.Rel, User: k.User}}
+	del := []*openfgav1.TupleKeyWithoutCondition{{Object: k.Obj, Relation: k.Rel, User: k.User}}
+	T := time.Now().UTC().Truncate(time.Millisecond).Add(500 * time.Microsecond)
+	for trial := 0; trial < 40; trial++ {
+		a, bb := wl.NewID(), wl.NewID()
+		if ds.VerifWriteAt(ctx, a, nil, wr, T) != nil || ds.VerifWriteAt(ctx, bb, nil, wr, T.Add(-time.Millisecond)) != nil || ds.VerifWriteAt(ctx, a, del, nil, T) != nil {
+			return nil
+		}
+		read, err1 := wl.ReadAll(ctx, ds, a)
+		ch, _, err2 := wl.ChangesRaw(ctx, ds, a, storage.ReadChangesFilter{}, 0, false)
+		if err1 != nil || err2 != nil {
+			return nil
+		}
+		got := wl.ChangeStrings(ch)
+		if len(got) == 2 && strings.HasPrefix(got[0], "D ") && len(read) == 0 {
+			c := Case{Backend: "sqlite", Check: "interleaved-writer", Readable: "A1: write " + k.String() + " to store A (clock T); B: write to store B (clock T-1ms, ULID drawn after A1); A2: delete " + k.String() + " from store A (clock T)",
+				Detail: fmt.Sprintf("trial %d of 40", trial), Read: read, Got: got, Want: []string{"W " + k.String(), "D " + k.String()}}
+			return &dev{"changelog-order-inverted/ulid-entropy-reset-by-interleaved-writer@sqlite",
+				"ReadChanges lists the delete of a tuple before its write (replaying it leaves the tuple present, Read is empty): two same-millisecond writes of one store with another request's ULID draw (different millisecond) in between", c}
+		}
+	}
+	return nil
+}
+
 const rule = "Breadth-first over Write histories (alphabet: write t, delete t, delete ti + write tj, write two, delete two; 3 tuple keys, one conditioned, two object types); " +
 	"states = (tuple set, changelog) computed by the reference model and deduplicated; EVERY accepted transition from every state of history length < D is executed on a fresh store " +
 	"on memory and on SQLite (so a state reached by several histories is checked once per history) and in the reached state: replay(ReadChanges oldest-first) = Read; one entry per applied item, in request order; " +
@@ -627,6 +686,12 @@ func Run(o *core.Options) int {
 		fmt.Fprintln(os.Stderr, "C15:", err)
 		return 2
 	}
+	// outside the sequential-history quantifier: what concurrent writers do to the changelog order (see interleavedWriter)
+	if d := interleavedWriter(ctx, u); d != nil {
+		r.Violate(d.sig, d.desc, d.c)
+	}
+	r.Eval(1)
+	wl.Cleanup()
 	var traces int64
 	for _, c := range cs {
 		c.MergeInto(r)
